@@ -119,11 +119,16 @@ func c02Exec(in Fields) Fields {
 		return c02ParseObs(in.S(1))
 	case "session":
 		return c02RunChild(in)
+	case "transcript": // c02t.go: a whole session compared with the composed model
+		return c02tExec(in)
 	}
 	return F("bad")
 }
 
 func c02Class(in Fields) string {
+	if in.S(0) == "transcript" {
+		return c02tClass(in)
+	}
 	if in.S(0) == "session" {
 		nlong := 0
 		for _, l := range in[2:] {
@@ -475,6 +480,8 @@ func c02Gen(r *Rand, tier string, scale int, emit func(Fields)) {
 	for i := 0; i < sessions; i++ {
 		emit(c02Session(r, i%4))
 	}
+	// 7. transcripts: whole sessions compared line for line with the composed model (c02t.go)
+	c02tGen(r, tier, emit)
 }
 
 // ---------- kind "session": parent side ----------
